@@ -54,6 +54,10 @@ pub fn ensure_unique_type_paths(types: &mut PortableRegistry) -> Result<(), Type
         for group in groups_with_same_path.iter_mut() {
             let other_ty_in_group_idx = group[0]; // all types in group are same shape; just check any one of them.
             if types_equal(ty_idx, other_ty_in_group_idx, types) {
+                #[cfg(scale_typegen_verif)]
+                crate::verif_hooks::emit(format!(
+                    r#"{{"ev":"group","idx":{ty_idx},"joined":{other_ty_in_group_idx}}}"#
+                ));
                 group.push(ty_idx);
                 added_to_existing_group = true;
                 break;
@@ -62,6 +66,8 @@ pub fn ensure_unique_type_paths(types: &mut PortableRegistry) -> Result<(), Type
 
         // We didn't find a matching group, so add it to a new one.
         if !added_to_existing_group {
+            #[cfg(scale_typegen_verif)]
+            crate::verif_hooks::emit(format!(r#"{{"ev":"group","idx":{ty_idx},"joined":-1}}"#));
             groups_with_same_path.push(vec![ty_idx])
         }
     }
@@ -81,6 +87,10 @@ pub fn ensure_unique_type_paths(types: &mut PortableRegistry) -> Result<(), Type
                     .get_mut(ty_id as usize)
                     .expect("type is present (2); qed;");
                 let name = ty.ty.path.segments.last_mut().expect("This is only empty for builtin types, that are filtered out with namespace().is_empty() above; qed;");
+                #[cfg(scale_typegen_verif)]
+                crate::verif_hooks::emit(format!(
+                    r#"{{"ev":"rename","idx":{ty_id},"old":"{name}","new":"{name}{n}"}}"#
+                ));
                 *name = format!("{name}{n}"); // e.g. Header1, Header2, Header3, ...
             }
             n += 1;
